@@ -134,7 +134,7 @@ def cases(tier, seed):
         if load == 'biaxial' and (m, n) == (8, 7):
             # the same Panel object analysed first with other edge restraints (amplitudes active there are null afterwards)
             out.append(dict(kind='panel', model=model, fbase=fb, m=m, n=n, num=num, sparse=sparse, load=load, reuse=1, seed=seed))
-    for model, alpha, num, comb in itertools.product(['clpt_donnell_bc1', 'clpt_donnell_bc3', 'fsdt_donnell_bc1'], [0., 25.], [1, 4], [0, 1, 2]):
+    for model, alpha, num, comb in itertools.product(['clpt_donnell_bc1', 'clpt_donnell_bc3', 'fsdt_donnell_bc1'], [0., 25.], [1, 4], [0, 1, 2, 3]):
         out.append(dict(kind='shell', model=model, alpha=alpha, num=num, comb=comb, seed=seed))
     return out
 
@@ -288,8 +288,8 @@ def check_shell(case):
     from scipy.linalg import eigh
     from ..ref import shell as rs
     fails = []
-    cfg = dict(model=case['model'], alphadeg=case['alpha'], m1=3, m2=3, n2=4, s=40, Fc=1.0e3, P=-2.0e3 if case['comb'] == 2 else 0.0,
-               T=20.0 if case['comb'] == 1 else 0.0)
+    cfg = dict(model=case['model'], alphadeg=case['alpha'], m1=3, m2=3, n2=4, s=40, Fc=1.0e3 if case['comb'] != 3 else 4.0e3,
+               P=-2.0e3 if case['comb'] == 2 else 0.0, T=20.0 if case['comb'] in (1, 3) else 0.0)
     cc = rs.shell_of(cfg)
     cc.num_eigvalues = case['num']
     try:
@@ -302,8 +302,10 @@ def check_shell(case):
         M, A = K0, cc.kG0.toarray()
     elif case['comb'] == 1:
         M, A = K0 + cc.kG0_T.toarray(), cc.kG0_Fc.toarray()
-    else:
+    elif case['comb'] == 2:
         M, A = K0 + cc.kG0_P.toarray(), cc.kG0_Fc.toarray()
+    else:                     # documented case 3: critical torsion load for a fixed axial load
+        M, A = K0 + cc.kG0_Fc.toarray(), cc.kG0_T.toarray()
     Md, Ad = M[pos:, pos:], A[pos:, pos:]
     act = np.where(np.abs(Md).sum(axis=0) != 0)[0]
     mu = eigh(-Ad[np.ix_(act, act)], Md[np.ix_(act, act)], eigvals_only=True)
